@@ -6,8 +6,12 @@ KEYWORDS = ["SELECT", "DISTINCT", "FROM", "WHERE", "GROUP BY", "HAVING", "WITH",
             "CASE", "WHEN", "THEN", "ELSE", "END", "LIKE", "IS", "NOT", "NULL", "OVER", "PARTITION BY"]
 
 
-def relayout(txt, rng):
+KEEP = {"vboom", "vboomsum", "in", "and", "or", "not", "as", "on", "when", "then", "else", "over", "with", "by", "like", "is"}      # user functions registered under one spelling; words that may precede "("
+
+
+def relayout(txt, rng, allow_fnupper=True):
     style = rng.choice([("upper", "plain"), ("lower", "plain"), ("mixed", "wide"), ("lower", "wide"), ("upper", "wide")])
+    fnupper = allow_fnupper and rng.random() < 0.35
     parts = re.split(r"('[^']*'|\"[^\"]*\"|`[^`]*`)", txt)
     out = []
     for p in parts:
@@ -19,6 +23,10 @@ def relayout(txt, rng):
                 w = m.group(0)
                 return {"lower": w.lower(), "mixed": "".join(c.upper() if i % 2 else c.lower() for i, c in enumerate(w)), "upper": w.upper()}[style[0]]
             p = re.sub(r"(?<![\w.])%s(?![\w.(])" % kw.replace(" ", r"\s+"), rep, p)
+        if fnupper:
+            # function names in upper case (SUM(v), FIRST_VALUE(v), UPPER(s)): a function is the same function however it is spelled.
+            # (mIxEd case function names are not resolved by the engine: pinned finding MixedCaseFunctionNameIsNull.)
+            p = re.sub(r"(?<![\w.`])([a-z_][a-z0-9_]*)(?=\s*\()", lambda m: m.group(1) if m.group(1) in KEEP else m.group(1).upper(), p)
         if style[1] == "wide":
             p = re.sub(r" ", lambda m: rng.choice([" ", "  ", " \n ", "\t", "\r\n"]), p)
         out.append(p)
